@@ -370,6 +370,23 @@ def scan_order_worker(seed):
         for k in range(3):
             with _shuffled_listing(random.Random(seed * 17 + k) if k else None):
                 louts.append(sc.real_scan(proj, "proj", mp2, level_limit=lim, exclude_external_libraries=(seed % 3 != 0)))
+    # external libraries included with an exclusion pattern that matches a SUB MODULE of a library only, the library and the sub
+    # module imported from different files: which file is met first must not decide which imports survive
+    tree4 = dict(tree2)
+    pys = sorted(p for p in tree4 if p.endswith(".py"))
+    if len(pys) >= 2:
+        f1, f2 = rng.sample(pys, 2)
+        tree4[f1] += "import ext.lib\nimport os\n"
+        tree4[f2] += "import ext.lib.x\nimport os.path\n"
+        eouts = []
+        epat = rng.choice([r"ext\.lib\.x", r"os\.path"])
+        with sc.write_project(tree4) as proj:
+            for k in range(3):
+                with _shuffled_listing(random.Random(seed * 19 + k) if k else None):
+                    eouts.append(sc.real_scan(proj, "proj", "proj", exclude_external_libraries=False, regex_external_exclusions=(epat,)))
+        if len(set(eouts)) > 1:
+            problems.append({"what": "scans with an external exclusion pattern differ with the directory enumeration order", "files": dict(tree4),
+                             "pattern": epat, "outs": eouts})
     if len(set(louts)) > 1:
         problems.append({"what": "two level-limited scans of the same tree differ (directory enumeration order)", "files": dict(tree2),
                          "module_path": mp2, "level_limit": lim, "outs": louts})
